@@ -1,8 +1,11 @@
 package checks
 
 import (
+	"bytes"
 	"fmt"
 	"strings"
+
+	"github.com/titpetric/vuego"
 
 	"verif/engine/core"
 	"verif/engine/htmlcmp"
@@ -29,7 +32,7 @@ var c01TypedNames = []string{"int0", "false", "nil", "slice-tag", "map-tag", "sl
 
 var c01Sinks = []string{"text", "vtext", "attri", "bound", "vbind"}
 var c01Neighs = []string{"N0", "Nplain", "NentBefore", "NampAfter", "NattrEnt", "NattrLt"}
-var c01Constructs = []string{"top", "if", "else", "forroot", "forrootOuter", "forchild", "incbound", "incinterp", "slotprop", "slotnamed", "layout", "iffor", "slot2inc", "slot2incnamed", "forinc"}
+var c01Constructs = []string{"top", "if", "else", "forroot", "forrootOuter", "forchild", "incbound", "incinterp", "slotprop", "slotnamed", "layout", "iffor", "slot2inc", "slot2incnamed", "forinc", "slot2", "slot2if", "slot2else", "slotloopif", "comp2if", "again"}
 
 func c01NeighOK(sink, neigh string) bool {
 	switch sink {
@@ -115,6 +118,23 @@ func c01Program(sink, neigh, construct string) (Files, string) {
 	case "forinc": // v-for on the include tag itself, prop interpolated from the item
 		f["page.vuego"] = `<div><template v-for="it in items" include="c.vuego" p="{{ it }}"></template></div>`
 		f["c.vuego"] = c01Sink(sink, neigh, "p", "")
+	case "slot2": // the sink itself is slot content that the component uses twice (one source node, two evaluations)
+		f["page.vuego"] = `<div><template include="s2.vuego">` + c01Sink(sink, neigh, "v", "") + `</template></div>`
+		f["s2.vuego"] = `<section><slot></slot><hr><slot></slot></section>`
+	case "slot2if":
+		f["page.vuego"] = `<div><template include="s2.vuego">` + c01Sink(sink, neigh, "v", ` v-if="t"`) + `</template></div>`
+		f["s2.vuego"] = `<section><slot></slot><hr><slot></slot></section>`
+	case "slot2else":
+		f["page.vuego"] = `<div><template include="s2.vuego"><i v-if="f">n</i>` + c01Sink(sink, neigh, "v", ` v-else`) + `</template></div>`
+		f["s2.vuego"] = `<section><slot></slot><hr><slot></slot></section>`
+	case "slotloopif":
+		f["page.vuego"] = `<div><template include="s2.vuego"><template #body>` + c01Sink(sink, neigh, "v", ` v-if="t"`) + `</template></template></div>`
+		f["s2.vuego"] = `<section><b v-for="i in two"><slot name="body"></slot></b><slot name="body"></slot></section>`
+	case "comp2if": // a cached component evaluated twice
+		f["page.vuego"] = `<div><template include="c.vuego" :p="v"></template><template include="c.vuego" :p="v"></template></div>`
+		f["c.vuego"] = `<i v-if="f">n</i>` + c01Sink(sink, neigh, "p", ` v-else`)
+	case "again": // the page is rendered twice on one engine, the second output is judged
+		f["page.vuego"] = `<div v-if="t">` + c01Sink(sink, neigh, "v", ` v-if="t"`) + `</div>`
 	case "layout":
 		f["page.vuego"] = "---\nlayout: l\n---\n<i>page</i>"
 		f["layouts/l.vuego"] = `<main>` + c01Sink(sink, neigh, "v", "") + `<div v-html="content"></div></main>`
@@ -125,7 +145,7 @@ func c01Program(sink, neigh, construct string) (Files, string) {
 }
 
 func c01Data(v any) map[string]any {
-	return map[string]any{"v": v, "items": []any{v}, "t": true, "f": false, "secret": c01Canary}
+	return map[string]any{"v": v, "items": []any{v}, "two": []int{1, 2}, "t": true, "f": false, "secret": c01Canary}
 }
 
 type c01Case struct {
@@ -195,7 +215,7 @@ func c01Ref(sink, neigh, construct string) string {
 		return s
 	}
 	files, page := c01Program(sink, neigh, construct)
-	out, err := renderPage(files, page, c01Data(c01Harmless))
+	out, err := c01Render(construct, files, page, c01Data(c01Harmless))
 	s := c01Skeleton(out)
 	if err != nil {
 		s = "ERROR " + err.Error()
@@ -204,12 +224,25 @@ func c01Ref(sink, neigh, construct string) string {
 	return s
 }
 
+func c01Render(construct string, files Files, page string, data map[string]any) (string, error) {
+	if construct != "again" {
+		return renderPage(files, page, data)
+	}
+	t := vuego.NewFS(files.FS())
+	var first, second bytes.Buffer
+	if err := t.Load(page).Fill(data).Render(bg, &first); err != nil {
+		return first.String(), err
+	}
+	err := t.Load(page).Fill(data).Render(bg, &second)
+	return second.String(), err
+}
+
 // c01Probe renders one context with one value and returns the failure mode ("" = inert).
 func c01Probe(ctx *core.Ctx, sink, neigh, construct string, v any) (mode, detail string) {
 	ref := c01Ref(sink, neigh, construct)
 	files, page := c01Program(sink, neigh, construct)
 	ctx.Eval(1)
-	out, err := renderPage(files, page, c01Data(v))
+	out, err := c01Render(construct, files, page, c01Data(v))
 	if strings.HasPrefix(ref, "ERROR") {
 		return "reference-fails", ref
 	}
